@@ -245,6 +245,11 @@ class C13(SMSpec):
             j["cfg"]["enable_only_after_disable"] = True
         return j
 
+    def mk_force(self, *a, **k):
+        j = self.mk(*a, **k)
+        j["cfg"]["force_acts"] = True
+        return j
+
     def jobs(self, tier):
         if tier == "quick":
             return [self.mk("S1", 6, 2), self.mk("S2", 6, 1), self.mk("S3", 5, 2), self.mk("S7", 6, 0), self.mk("S8", 5, 1),
@@ -253,11 +258,13 @@ class C13(SMSpec):
                     # two next_state_now() calls from one state invocation / a nested chain of them
                     self.mk("S1", 4, 2, variant=3, double_nsn=True), self.mk("S3", 3, 2, variant=1, nsn_depth=2),
                     # the duration topics are rewritten between (and inside) periods: the value at entry counts, every time
-                    self.mk("S6", 5, 0, variant=1, rewrite=True), self.mk("S2", 6, 0, variant=2, rewrite="enable")]
+                    self.mk("S6", 5, 0, variant=1, rewrite=True), self.mk("S2", 6, 0, variant=2, rewrite="enable"),
+                    self.mk_force("S1", 5, 2, variant=1), self.mk_force("S3", 4, 1, variant=2)]
         return [self.mk("S1", 8, 2, 1), self.mk("S2", 8, 2, 2), self.mk("S3", 6, 3, 3, 2), self.mk("S7", 9, 1, 4),
                 self.mk("S8", 7, 2, 5), self.mk("S4", 6, 2, 1), self.mk("S6", 8, 1, 2), self.mk("S1", 7, 2, 3, done_next=True),
                 self.mk("S3", 6, 2, 4, done_next=True), self.mk("S1", 5, 2, variant=3, double_nsn=True), self.mk("S4", 4, 3, variant=2, nsn_depth=2, double_nsn=True),
-                self.mk("S6", 7, 0, variant=1, rewrite=True), self.mk("S2", 7, 0, variant=2, rewrite=True)]
+                self.mk("S6", 7, 0, variant=1, rewrite=True), self.mk("S2", 7, 0, variant=2, rewrite=True),
+                self.mk_force("S1", 6, 2, variant=1), self.mk_force("S3", 5, 2, variant=2)]
 
     def reach_required(self, tier):
         return ["disabled", "iteration-after-finish", "iteration-while-disabled", "first-iteration-after-enable",
